@@ -759,6 +759,8 @@ class Engine:
         pos = {b: i for i, b in enumerate(rpo)}
         rets = []
         loopinfo = self.ev.loop_info(self, f) if (headers and self.ev is not None) else {}
+        for _li in loopinfo.values():
+            _li["entry_objs"] = set(st.heap.keys())
         if headers and not loopinfo:
             # no invariants: unroll (only terminates when the loop bound becomes concrete)
             return self.exec_unrolled(st, f, args, fvs)
